@@ -30,9 +30,11 @@ Definition mkguess (tb : gtab) (c l r : cat) : text * text :=
   | Some (_, _, _, v) => v
   | None => ([], [])
   end.
-Definition res_eqb (a b : text * list token * tree) : bool :=
-  match a, b with (n, tk, t), (n', tk', t') => text_eqb n n' && toks_eqb tk tk' && tree_eqb t t' end.
-Fixpoint ress_eqb (a b : list (text * list token * tree)) : bool :=
+(* expected token list None = the tokens of the leaves of the expected tree *)
+Definition res_eqb (a : text * list token * tree) (b : text * option (list token) * tree) : bool :=
+  match a, b with (n, tk, t), (n', tk', t') =>
+    text_eqb n n' && toks_eqb tk (match tk' with Some x => x | None => tokens t' end) && tree_eqb t t' end.
+Fixpoint ress_eqb (a : list (text * list token * tree)) (b : list (text * option (list token) * tree)) : bool :=
   match a, b with [], [] => true | x :: a', y :: b' => res_eqb x y && ress_eqb a' b' | _, _ => false end.
 (* auto_of *)
 Definition ChkPrint (t : tree) (e : option text) : bool := otext_eqb (print_auto t) e.
@@ -40,7 +42,7 @@ Definition ChkPrint (t : tree) (e : option text) : bool := otext_eqb (print_auto
 Definition ChkConll (t : tree) (e : option (list text)) : bool :=
   match conll_frags t, e with Some a, Some b => texts_eqb a b | None, None => true | _, _ => false end.
 (* read_auto over the raw lines of a file *)
-Definition ChkFile (tb : gtab) (ls : list text) (e : option (list (text * list token * tree))) : bool :=
+Definition ChkFile (tb : gtab) (ls : list text) (e : option (list (text * option (list token) * tree))) : bool :=
   match read_auto (mkguess tb) ls, e with Some a, Some b => ress_eqb a b | None, None => true | _, _ => false end.
 (* the generated tree lies in the domain of the theorems; what was read is canon of what was printed *)
 Definition ChkDom (t : tree) (b : bool) : bool := Bool.eqb (wf_treeb t) b.
@@ -78,6 +80,13 @@ def _alarm(signum, frame):
     raise Timeout()
 
 
+def _depth():
+    f, n = sys._getframe(), 0
+    while f is not None:
+        f, n = f.f_back, n + 1
+    return n
+
+
 def run_reader(path, content):
     """('ok', [ReaderResult]) or ('err', exception name); a result with an ill-typed category counts as err"""
     with open(path, 'w', encoding='utf-8', newline='') as f:
@@ -86,7 +95,9 @@ def run_reader(path, content):
     signal.alarm(10)
     lim = sys.getrecursionlimit()
     try:
-        sys.setrecursionlimit(3000)
+        # a diverging read (cursor reset to 0 by a missing blank, then the same node again) ends in RecursionError; the trees of
+        # this harness need < 100 frames, so a low limit only makes divergence cheap to observe
+        sys.setrecursionlimit(_depth() + 200)
         res = list(R.read_auto(path))
     except Timeout:
         return 'err', 'no answer within 10 s'
@@ -126,8 +137,15 @@ def guess_table(trees):
     return '[' + ';'.join(out) + ']'
 
 
+def gtoks(r):
+    """the reader's token list; `None` = exactly the tokens of the leaves of the tree, in order (checked here, expanded in Coq)"""
+    if [dict(x) for x in r.tokens] == [dict(l.token) for l in r.tree.leaves] and all(list(a) == list(b.token) for a, b in zip(r.tokens, r.tree.leaves)):
+        return 'None'
+    return f'(Some {glist(r.tokens, gtoken)})'
+
+
 def gres(r):
-    return f'({lit(r.name)},{glist(r.tokens, gtoken)},{gtree(r.tree)})'
+    return f'({lit(r.name)},{gtoks(r)},{gtree(r.tree)})'
 
 
 def same_derivation(t, r, path='root'):
@@ -204,6 +222,8 @@ def run(ctx):
     def add(term, *d):
         cases.append(term)
         descr.append(d)
+        if d[0] != 'tree':
+            parts.append(None)
 
     def word_of(plain):
         r = rng.random()
@@ -255,28 +275,44 @@ def run(ctx):
 
     printed = []       # (tree, line) for the malformed stream
 
+    def wf_tree_py(t):
+        """coq/AutoSpec.v wf_treeb restated on the Python tree (blank = U+0020 only)"""
+        if not gen.wf_py(t.cat):
+            return False
+        if t.is_leaf:
+            w = t.token.get('word')
+            return w is not None and ' ' not in w and '\\' not in w and ' ' not in t.token.get('pos', 'POS')
+        return all(wf_tree_py(c) for c in t.children)
+
+    parts = []         # per case: [(label, term)] - evaluated separately only to name the component of a failing case
+
     def one_tree(t, kind):
         sig = gen.tree_sig(t)
         ctx.case(('tree', sig), nontrivial=not t.is_leaf)
         ctx.count(f'tree:{kind}')
         ctx.count(f'leaves:{len(t.leaves)}')
         dom = domain(t)
-        gt = gtree(t)
-        add(f'ChkDom {gt} {gbool(dom)}', 'domain', kind, sig)
+        ps = [('domain', f'ChkDom t_ {gbool(wf_tree_py(t))}')]
+        lets = [f'let t_ := {gtree(t)} in']
         # --- printer
         try:
             line = auto_of(t)
         except KeyError:
             line = None
-        add(f'ChkPrint {gt} {gopt(line, lit)}', 'print', kind, line)
         try:
             cols = conll_last_columns(t)
         except KeyError:
             cols = None
-        add(f'ChkConll {gt} {gopt(cols, lambda x: glist(x, lit))}', 'conll', kind, cols)
+        ps.append(('conll', f'ChkConll t_ {gopt(cols, lambda x: glist(x, lit))}'))
         if line is None:
+            ps.append(('print', 'ChkPrint t_ None'))
             ctx.count('print:KeyError')
+            if dom:
+                ctx.fail('unprintable', f'auto_of raises KeyError on a tree of the domain: {sig!r}', {'tree': repr(sig)})
+            finish_case(lets, ps, kind, sig)
             return
+        lets.append(f'let ln_ := {lit(line)} in')
+        ps.append(('print', 'ChkPrint t_ (Some ln_)'))
         printed.append(line)
         has_pos = all('pos' in l.token for l in t.leaves)
         if has_pos:
@@ -286,18 +322,24 @@ def run(ctx):
                          {'auto': line, 'fragments': cols})
         # --- reader
         out, res = run_reader(tmp, 'ID=1\n' + line + '\n')
-        if out == 'ok':
-            tb = guess_table([r.tree for r in res])
-            add(f'ChkFile {tb} [{lit("ID=1" + chr(10))};{lit(line + chr(10))}] (Some {glist(res, gres)})', 'read', kind, line)
-        else:
-            add(f'ChkFile [] [{lit("ID=1" + chr(10))};{lit(line + chr(10))}] None', 'read', kind, line, res)
         ctx.count(f'read:{out}')
+        files = f'[{lit("ID=1" + chr(10))}; ln_ ++ [10]]'
+        if out == 'ok' and len(res) == 1:
+            lets.append(f'let tb_ := {guess_table([r.tree for r in res])} in')
+            lets.append(f'let r_ := {gtree(res[0].tree)} in')
+            ps.append(('read', f'ChkFile tb_ {files} (Some [({lit(res[0].name)},{gtoks(res[0])},r_)])'))
+        elif out == 'ok':
+            ps.append(('read', f'ChkFile {guess_table([r.tree for r in res])} {files} (Some {glist(res, gres)})'))
+        else:
+            ps.append(('read', f'ChkFile [] {files} None'))
         if not dom:
             ctx.count('tree:outside domain')
+            finish_case(lets, ps, kind, line)
             return
         # --- oracle: the property on the implementation's outputs
         if out != 'ok' or len(res) != 1:
             ctx.fail('unreadable', f'read_auto fails ({res}) on the line auto_of printed: {line!r}', {'auto': line})
+            finish_case(lets, ps, kind, line)
             return
         r = res[0]
         m = same_derivation(t, r.tree)
@@ -308,11 +350,17 @@ def run(ctx):
         line2 = auto_of(r.tree)
         if line2 != line:
             ctx.fail('reprint', f'auto_of(read_auto(line)) = {line2!r} differs from line = {line!r}', {'auto': line, 'reprinted': line2})
-        add(f'ChkCanon {tb} {gt} {gtree(r.tree)}', 'canon', kind, line)
+        ps.append(('canon', 'ChkCanon tb_ t_ r_'))
+        finish_case(lets, ps, kind, line)
         if len(ctx.samples) < 3 and not t.is_leaf:
             ctx.sample({'auto_of': line, 'conll_last_column': cols, 'read_back_tokens': [dict(k) for k in r.tokens]})
 
-    n_trees = 420 if ctx.quick else 6000
+    def finish_case(lets, ps, kind, what):
+        pre = ' '.join(lets)
+        add('(' + pre + ' ' + ' && '.join(f'({p})' for _, p in ps) + ')', 'tree', kind, what)
+        parts.append([(lab, '(' + pre + ' ' + p + ')') for lab, p in ps])
+
+    n_trees = 450 if ctx.quick else 6000
     for i in range(n_trees):
         kind = ('licensed', 'random', 'exotic')[i % 3]
         one_tree(make_tree(kind), kind)
@@ -342,9 +390,10 @@ def run(ctx):
         else:
             add(f'ChkFile [] {glist(lines, lit)} None', 'file', kind, content, res)
 
+    short = [l for l in printed if len(l) <= 420] or printed
     n_mal = 500 if ctx.quick else 8000
     for i in range(n_mal):
-        line = rng.choice(printed)
+        line = rng.choice(short)
         for _ in range(rng.choice([1, 1, 1, 2, 3])):
             line = mutate(rng, line)
         if '\n' in line or '\r' in line:
@@ -353,7 +402,7 @@ def run(ctx):
     ws = [' ', '\t', ' ', '　', '\x0b', '\x1c', ' ', '\x85']
     for i in range(100 if ctx.quick else 1500):
         k = rng.randrange(8)
-        l1, l2 = rng.choice(printed), rng.choice(printed)
+        l1, l2 = rng.choice(short), rng.choice(short)
         pad = lambda s: ''.join(rng.choice(ws) for _ in range(rng.randint(0, 2))) + s + ''.join(rng.choice(ws) for _ in range(rng.randint(0, 2)))
         if k == 0:
             lines = [l1 + '\n']                                        # no ID line: unbound name
@@ -384,9 +433,18 @@ def run(ctx):
               '(<T S 0 2> (<L N a b c N>) (<L S\\N a b c S\\N>) ) )', '(<T S 0 2> (<L N a b c N>) (<L S\\N a b c S\\N>))', 'x(<L S a b c S>)', '((L S a b c S>)']:
         malformed(['ID=1\n', s + '\n'], 'corpus')
 
-    bad = ctx.coq_cases('auto', PRE, cases, chunk=150 if ctx.quick else 300, describe=lambda i: descr[i])
+    import common
+    chunk = max(40, min(300, -(-len(cases) // common.NPROC)))
+    bad = ctx.coq_cases('auto', PRE, cases, chunk=chunk, describe=lambda i: descr[i])
     for i in (bad or [])[:10]:
         ctx.notes.append(f'model/implementation disagreement on {descr[i]!r}'[:600])
+    # name the component (print / conll / read / domain / canon) of the first disagreeing tree cases
+    todo = [i for i in (bad or []) if i < len(parts) and parts[i]][:12]
+    if todo:
+        flat = [(i, lab, term) for i in todo for lab, term in parts[i]]
+        bad2 = ctx.coq_cases('diagnose', PRE, [x[2] for x in flat], describe=lambda j: (flat[j][1], descr[flat[j][0]]))
+        for j in (bad2 or []):
+            ctx.notes.append(f'component {flat[j][1]!r} disagrees on {descr[flat[j][0]]!r}'[:600])
     ctx.trusted += ['hand-written model coq/Auto.v of auto_of, the last column of conll_of, denormalize, _fix, _AutoLineReader, read_auto '
                     '(tied by the correspondence cases of this run); coq/Cat.v for str(cat) and Category.parse (tied by C05)',
                     'translators translate/gen_tables.py (denormalize tables, punctuations, split class) and translate/gen_auto.py (_FIX, endswith suffixes, cut, call sites of _fix)',
